@@ -31,7 +31,7 @@ SLOTS = ("a", "b", "sub.c", "sub", "")
 
 CLASS_NAMES = ("A", "B", "C")
 FUNC_NAMES = ("f", "g", "h")
-ATTR_NAMES = ("x", "y", "z", "_p")
+ATTR_NAMES = ("x", "y", "z", "_p", "cls", "kind")  # `cls` and `kind` are keys of the serialised form, too
 PARAM_NAMES = ("a", "b", "c", "d", "e", "p", "q", "r")
 # names used inside expressions: members of modules / classes (so that they resolve), parameter names (resolve to
 # `Class(param)` inside `__init__`), imported names, builtins and unknown names
@@ -112,6 +112,12 @@ def _lambda_params(default):
     return build()
 
 
+def _chain(head, names):
+    for n in names:
+        head = ["attr", head, n]
+    return head
+
+
 def full_exprs(max_leaves: int = 8, *, annotation_safe: bool = False):
     """Every expression form Griffe's builder knows. `annotation_safe`: leave out the forms CPython refuses to compile
     inside a (postponed) annotation or outside a function: walrus, yield, async comprehensions, starred elements."""
@@ -131,6 +137,17 @@ def full_exprs(max_leaves: int = 8, *, annotation_safe: bool = False):
         fmt = st.tuples(st.just("fmt"), sub, st.sampled_from((-1, 115, 114, 97)), st.none() | st.sampled_from((">10", ".2f", "{w}"))).map(list)
         forms = [
             st.tuples(st.just("attr"), sub, st.sampled_from(ATTRS)).map(list),
+            # dotted chains with two or three trailing names behind a head that is a call, a subscript, a parenthesised
+            # operation, a string or a plain name: `f().A.x`, `x['s'].path.c`, `(a or b).path.real`
+            st.tuples(
+                st.one_of(
+                    sub.map(lambda e: ["call", e, [], []]),
+                    st.tuples(sub, sub).map(lambda t: ["subscript", t[0], t[1]]),
+                    st.lists(sub, min_size=2, max_size=2).map(lambda es: ["boolop", 1, es]),
+                    sub,
+                ),
+                st.lists(st.sampled_from(ATTRS), min_size=2, max_size=3),
+            ).map(lambda t: _chain(t[0], t[1])),
             st.tuples(st.just("binop"), st.integers(0, len(BINOPS) - 1), sub, sub).map(list),
             st.tuples(st.just("boolop"), st.integers(0, 1), st.lists(sub, min_size=2, max_size=3)).map(list),
             st.tuples(st.just("unary"), st.integers(0, len(UNARYOPS) - 1), sub).map(list),
@@ -350,7 +367,10 @@ def docstrings():
     # `ospath`: prelude imports of modules that are not loaded)
     item = st.tuples(st.sampled_from(PARAM_NAMES + ("x", "A", "f", "thing", "P", "ospath")), st.integers(0, len(DOC_ANNOTATIONS) - 1), st.integers(0, len(DOC_DESCS) - 1)).map(list)
     section = st.tuples(st.integers(0, len(DOC_KINDS) - 1), st.lists(item, min_size=1, max_size=2)).map(list)
-    full = st.fixed_dictionaries({"sum": st.integers(0, len(DOC_SUMMARIES) - 1), "sections": st.lists(section, max_size=3)})
+    # "lead": 0 text right after the quotes; 1 text on the next line; 2 next line and every further line indented deeper
+    full = st.fixed_dictionaries(
+        {"sum": st.integers(0, len(DOC_SUMMARIES) - 1), "sections": st.lists(section, max_size=3), "lead": st.sampled_from((0, 0, 1, 2))},
+    )
     # empty and whitespace-only docstrings (`''''''`, `''' '''`): a docstring that is present but has no contents
     empty = st.fixed_dictionaries({"sum": st.sampled_from((-1, -2)), "sections": st.just([])})
     return st.one_of(full, full, full, empty)
@@ -553,6 +573,9 @@ def _bodies(importable: bool, expr_leaves: int, eval_annotations: bool = False):
         st.tuples(st.just("import_sib"), st.integers(0, 3), st.integers(0, 2)).map(list),
         st.tuples(st.just("from_missing"), st.sampled_from(("thing", "Missing", "A")), st.booleans()).map(list),
         st.tuples(st.just("all"), st.lists(st.integers(0, 7), max_size=3), st.just(False) if importable else st.booleans()).map(list),
+        # a submodule built at import time (types.ModuleType registered in sys.modules, no __file__): the inspector
+        # inspects it on the spot and gives it no file path
+        st.tuples(st.just("runtime_submodule"), st.sampled_from(("gen", "plug"))).map(list),
     )
     klass = cls(0)
     stmt = st.sampled_from(("attr", "func", "class", "class", "import", "import")).flatmap({"attr": attr, "func": func(FUNC_NAMES, method=False), "class": klass, "import": imports}.__getitem__)
@@ -603,7 +626,11 @@ class _Src:
             return
         text = doc_text(doc, style)
         body = text.split("\n")
-        if len(body) == 1:
+        lead = doc.get("lead", 0)
+        if lead and text.strip():
+            deeper = "  " if lead == 2 else ""
+            self.add(indent, "'''\n" + "\n".join((deeper if i and line else "") + line for i, line in enumerate(body)) + "\n'''")
+        elif len(body) == 1:
             self.add(indent, "'''" + body[0] + "'''")
         else:
             self.add(indent, "'''" + "\n".join(body) + "\n'''")
@@ -891,6 +918,20 @@ class _ModRenderer:
         elif tag == "from_missing":
             name = stmt[1]
             self._guarded(f"from missing_mod_zz import {name}" + (" as thing2" if stmt[2] else ""))
+        elif tag == "runtime_submodule":
+            n = stmt[1]
+            s.add(0, "import sys as _sys, types as _types")
+            s.add(0, f"{n} = _types.ModuleType(__name__ + '.{n}', 'Generated submodule.')")
+            s.add(0, f"def _{n}_hello(a: int = 1) -> int:")
+            s.add(1, "'''Say hello.'''")
+            s.add(1, "return a")
+            s.add(0, f"_{n}_hello.__module__ = {n}.__name__")
+            s.add(0, f"_{n}_hello.__qualname__ = _{n}_hello.__name__ = 'hello'")
+            s.add(0, f"{n}.hello = _{n}_hello")
+            s.add(0, f"{n}.VALUE = 3")
+            s.add(0, f"_sys.modules[{n}.__name__] = {n}")
+            if n not in self.names:
+                self.names.append(n)
         elif tag == "all":
             pool = self.names + ["P", "wraps"] if self.importable else self.names + ["P", "Missing", "x", "wraps"]
             chosen = list(dict.fromkeys(pool[i % len(pool)] for i in stmt[1])) if pool else []
